@@ -38,7 +38,7 @@ def gen_call(rng):
                     seed=rng.randint(0, 10 ** 6), target=rng.choice([None, None, 0, 2, 1024]),
                     radius=rng.choice([0, 1, 20]))
     if k < 0.63:
-        return gen_table_call(rng)
+        return gen_table_call(rng) if rng.random() < 0.5 else gen_wrapper_call(rng)
     if k < 0.68:
         n = rng.randint(1, 8)
         table = []
@@ -85,10 +85,31 @@ def gen_table_call(rng):
                 target=rng.choice([None, None, 0, 3]))
 
 
+def gen_wrapper_call(rng):
+    """The two top-level wrappers, with every combination of their switches, constraints and keyword dictionaries
+    either passed by the caller (then snapshotted) or left to the defaults (shared between calls)."""
+    prob = pnr_gen.gen_problem(rng, max_w=4, max_h=4, max_vertices=6)
+    return dict(kind="wrapper", which=rng.choice(["wrapper", "pnr"]), problem=prob,
+                placer=rng.choice(PLACERS[:4]), seed=rng.randint(0, 10 ** 6),
+                custom_cores=rng.random() < 0.35, reserve_monitor=rng.random() < 0.5, align_sdram=rng.random() < 0.6,
+                give_constraints=rng.random() < 0.6, give_kwargs=rng.random() < 0.5, radius=rng.choice([1, 20]))
+
+
 def perturb(rng, call):
     """A copy of `call` that differs from it in ONE component (a memo keyed on the other components only would
     return the answer of the wrong call)."""
     c = json.loads(json.dumps(call))
+    if c["kind"] == "wrapper":
+        what = rng.choice(["custom_cores", "custom_cores", "reserve_monitor", "align_sdram", "give_constraints", "give_kwargs",
+                           "which", "radius"])
+        if what == "which":
+            c["which"] = "pnr" if c["which"] == "wrapper" else "wrapper"
+        elif what == "radius":
+            c["radius"] = 1 if c["radius"] == 20 else 20
+        else:
+            c[what] = not c[what]
+        c["what"] = "wrapper-" + what
+        return c
     if c["kind"] == "tables":
         what = rng.choice(["sources", "sources", "route", "key", "target", "fn", "drop"])
         e = rng.choice(c["table"])
@@ -153,7 +174,7 @@ def perturb(rng, call):
         v["sdram"] = rng.choice([0, 10, 100, 200])
     elif what == "weight" and p["nets"]:
         n = rng.choice(p["nets"])
-        n["weight"] = rng.choice([x for x in [1.0, 2.0, 0.5, 4.0] if x != n["weight"]])
+        n["weight"] = rng.choice([x for x in [1.0, 2.0, 0.5, 4.0, 0.1, 0.7] if x != n["weight"]])
     elif what == "sinks" and p["nets"]:
         n = rng.choice(p["nets"])
         ids = [v["id"] for v in p["vertices"]]
@@ -179,11 +200,33 @@ def perturb(rng, call):
     return c
 
 
+def gen_dense_sa(rng):
+    """A dense annealing problem (about a dozen vertices with four nets each on a 4x4 machine of one-core chips,
+    full effort) placed after an unrelated call whose objects are still alive: the annealer makes thousands of
+    accept/reject decisions on sums of irrational net costs, so anything that depends on object identity or on
+    the state left by the earlier call shows in the placement."""
+    n = rng.randint(9, 13)
+    ids = ["v%d" % i for i in range(n)]
+    nets = [dict(source=rng.choice(ids), sinks=[rng.choice(ids) for _ in range(rng.randint(1, 2))],
+                 weight=rng.choice([1.0, 2.0, 0.5, 3.0])) for _ in range(min(64, 4 * n))]
+    vals = rng.sample(range(64), len(nets))
+    prob = dict(machine=dict(w=4, h=4, dead_chips=[], dead_links=[], cores=1, sdram=10000, exc=[]),
+                vertices=[dict(id=i, cores=1, sdram=0) for i in ids], nets=nets, constraints=[],
+                keys=[[v, 63] for v in vals])
+    probe = dict(kind="chain", problem=prob, placer=rng.choice(["sa_py", "sa_py", "sa_c"]), seed=rng.randint(0, 10 ** 6),
+                 target=None, radius=20, effort=1.0, what="dense-sa")
+    other = dict(kind="chain", problem=pnr_gen.gen_problem(rng), placer=rng.choice(PLACERS[:4]), seed=1, target=None, radius=20)
+    return [other, probe]
+
+
 def gen_family(rng):
     """A history of RELATED calls: a base call and copies of it that differ in one component each, in random
     order, the base once more at the end."""
-    if rng.random() < 0.3:
+    k = rng.random()
+    if k < 0.25:
         base = gen_table_call(rng)
+    elif k < 0.45:
+        base = gen_wrapper_call(rng)
     else:
         prob = pnr_gen.gen_problem(rng, max_w=6, max_h=6, max_vertices=9)
         while len(prob["vertices"]) < 4:
@@ -218,6 +261,8 @@ def run(chk, args):
             hists.append([gen_call(chk.rng) for _ in range(chk.rng.randint(2, 7))])
         for _ in range(2 * n_hist):
             hists.append(gen_family(chk.rng))
+        for _ in range(n_hist // 4):
+            hists.append(gen_dense_sa(chk.rng))
     corpus = lib.os.path.join(lib.VERIF, "corpus", "C17.json")
     if lib.os.path.exists(corpus):
         hists = json.load(open(corpus)) + hists
@@ -270,7 +315,8 @@ def run(chk, args):
     chk.coverage["rule"] = ("random histories of 2-7 library calls, and twice as many FAMILY histories: a base call and 3-7 copies of it that differ in "
                             "ONE component each (machine size up or down, dead links, dead chips, resources, exceptions, vertex "
                             "resources, net weights, sinks, keys, constraints, seed, target, radius; for direct table-minimiser calls: "
-                            "sources, routes, keys, target, function), shuffled, the base repeated last (P&R chains place->allocate->route->tables->minimise "
+                            "sources, routes, keys, target, function; for the wrapper() / place_and_route_wrapper() calls: each switch, "
+                            "the core resource name, constraints / keyword dictionaries passed or defaulted), shuffled, the base repeated last (P&R chains place->allocate->route->tables->minimise "
                             "with each of the 7 placer configurations, ordered_covering with default aliases, BitField "
                             "definitions, controller construction and context use, Machine defaults); every call is also "
                             "run alone in a fresh interpreter and must give the same canonical result; every argument is "
